@@ -155,10 +155,9 @@ function_body_roundtrip = Contract(
         Clause("BRT-carried", "len(result.body) == 3 and unchanged(result.body[1], function_def.body[0]) and unchanged(result.body[2], function_def.body[1])",
                when=["two-statements", "ends-in-bare-return"], note="C16: after the docstring come the original statements, structurally identical and in order (a bare return included)"),
         Clause("BRT-return-value", "len(result.body) == 3 and unchanged(result.body[1], function_def.body[0]) and typeis(result.body[2], 'Return') and "
-                                   "((function_def.body[1].value.value == 0 and unchanged(result.body[2], function_def.body[1])) or "
-                                   "(function_def.body[1].value.value != 0 and result.body[2].value is log_ast_parse_results[0].body[0].value "
-                                   "and log_ast_parse_args[0][0] == str(function_def.body[1].value.value)))",
-               when=["ends-in-return-value"], note="C16: the final `return <int>` is kept once - as it stands for 0, re-created from the value's text otherwise; nothing else changes"),
+                                   "result.body[2].value is log_ast_parse_results[0].body[0].value and log_ast_parse_args[0][0] == str(function_def.body[1].value.value)",
+               when=["ends-in-return-value"], note="C16: the final `return <int>` is kept once, re-created from the value's text - zero included (before 3ff6475 a zero was only "
+                                                   "kept because the statement itself was carried); nothing else changes"),
         Clause("BRT-frame", "unchanged(function_def, old_function_def)", note="C13: the parsed tree is not modified"),
     ],
     canaries=["len(result.body) == 1"],
